@@ -2,6 +2,7 @@ import Driver.Codec
 import Driver.Affine
 import Driver.PathOps
 import Driver.EngineOps
+import Driver.ShapeOps
 open PicoSVG Drv
 
 def handleF64 (fields : List String) : Option String :=
@@ -14,7 +15,7 @@ def handleF64 (fields : List String) : Option String :=
   | ["f64.round", h, n] => n.toInt?.map (fun k => fHex (F64.pyRound (ofHex h) k))
   | _ => none
 
-def handlers : List (List String → Option String) := [handleF64, handleAffine, handlePath, handleEngine]
+def handlers : List (List String → Option String) := [handleF64, handleAffine, handlePath, handleEngine, handleShape]
 
 def handle (fields : List String) : String :=
   match handlers.findSome? (fun h => h fields) with
